@@ -230,7 +230,7 @@ func TestVF_C29(t *testing.T) {
 		"and run to quiescence; for every 5th k (thorough: all) the crash is additionally produced live (fail-stop of the bucket at mutation k + cancellation) and the half-written working directory is kept for the restart; thorough additionally crashes the restarted run once more; oracle after EVERY mutating operation of every run: in both store-gateway views " +
 		"(real MetaFetcher + IgnoreDeletionMarkFilter + DefaultDeduplicateFilter; deletion marks not yet effective / all effective) the complete selected blocks hold every sample of the original blocks and no other sample; " +
 		"at quiescence with all marks effective every sample is held exactly once; distinct = (set, crash point); non-trivial = the crash was injected")
-	nsets := r.N(7, 210)
+	nsets := r.N(5, 210)
 	r.Assume("a crash is modelled as fail-stop of the bucket at a mutating operation (every later operation fails) plus cancellation; real SIGKILL of a child process is not used")
 	r.Assume("store gateway wiring is mirrored from cmd/thanos/store.go; replica labels are ignored when comparing samples iff the compactor is configured to deduplicate on them")
 	r.Assume("a selected block serves its samples only while every file listed in its meta.json exists in the bucket")
@@ -307,14 +307,17 @@ func TestVF_C29(t *testing.T) {
 		}
 		env.final(ctx, core, st)
 		_, M, _ := core.counts()
-		t.Logf("set %d (%s): build %v, crash-free run %v, M=%d mutations, %d samples", c, set.Name, tBuild, time.Since(tSet), M, len(env.orig))
-		if M == 0 || len(states) != M+1 {
-			r.Inconclusive(fmt.Sprintf("crash-free run performed %d mutations (%d states) on set %s", M, len(states), set.Name))
+		t.Logf("set %d (%s): build %v, crash-free run %v, M=%d mutations (%d applied), %d samples", c, set.Name, tBuild, time.Since(tSet), M, len(states)-1, len(env.orig))
+		// M counts attempted mutating operations; some (deleting a directory marker object that does not exist) change nothing.
+		// states[i] = bucket content after the i-th APPLIED mutation; a crash leaves one of states[0..A-1] behind.
+		A := len(states) - 1
+		if M == 0 || A == 0 {
+			r.Inconclusive(fmt.Sprintf("crash-free run performed %d mutations (%d applied) on set %s", M, A, set.Name))
 			continue
 		}
 		r.Count("sets", 1)
-		r.Count("crash_points", M)
-		r.Sample(map[string]any{"set": set.describe(), "delete_delay": opts.DeleteDelay.String(), "lister": opts.Lister, "original_samples": len(env.orig), "mutating_ops_crash_free": M, "online_checks_crash_free": st.checks})
+		r.Count("crash_points", A)
+		r.Sample(map[string]any{"set": set.describe(), "delete_delay": opts.DeleteDelay.String(), "lister": opts.Lister, "original_samples": len(env.orig), "mutating_ops_crash_free": M, "applied_mutations_crash_free": A, "online_checks_crash_free": st.checks})
 
 		// restart runs a fresh compactor to quiescence on core (optionally crashing it once more first) and applies the final check
 		restart := func(core *vfcfbCore, st *vfc29RunState, k int, dir string, secondCrash bool) {
@@ -366,7 +369,7 @@ func TestVF_C29(t *testing.T) {
 					dir, _ := os.MkdirTemp(scratch, "crash")
 					if !j.live {
 						// the process died at mutating operation k: the bucket holds the first k-1 mutations; fresh process, fresh directory
-						core, st := newRun(states[k-1], "after-restart-1", k)
+						core, st := newRun(states[k], "after-restart-1", k)
 						r.Distinct(fmt.Sprintf("%d|%s|%d|snapshot", c, set.Name, k))
 						r.Count("crash_restarts_from_prefix_state", 1)
 						restart(core, st, k, dir, r.Thorough())
@@ -393,7 +396,7 @@ func TestVF_C29(t *testing.T) {
 				}
 			}()
 		}
-		for k := 2; k <= M; k++ { // k=1 leaves the initial state: identical to the crash-free run
+		for k := 1; k < A; k++ { // crash right after the k-th applied mutation (k=0 is the crash-free run itself, k=A its end state)
 			jobs <- job{k, false}
 		}
 		for k := 1; k <= M; k++ {
@@ -403,7 +406,7 @@ func TestVF_C29(t *testing.T) {
 		}
 		close(jobs)
 		wg.Wait()
-		t.Logf("set %d: %d crash points in %v", c, M, time.Since(tSet))
+		t.Logf("set %d: %d crash points in %v", c, A, time.Since(tSet))
 	}
 	r.Require(int64(nsets*40), nsets*8)
 }
